@@ -100,6 +100,7 @@ func (s *State) ExpandMacros(program ast.Node) ast.Node {
 		}
 
 		evalEnv := extendMacroEnv(macro, args)
+		evalEnv.Context = s.Context // a macro body runs at expansion time: it must honor the deadline/cancellation too.
 
 		evaluated := evalEnv.Eval(macro.Body)
 
